@@ -151,6 +151,41 @@ def k_bytes(name, mode, n):
     return b
 
 
+def probe_family(name, n, steps=1400):
+    """native determinism probe (confirmation device for hidden process-wide state, which R reports as an unsupported
+    static / thread-local access): instance A fed S alone first; then B fed the same S while an unrelated instance is stepped in
+    between and a clone of B is taken midway; all outputs must be bit-identical."""
+    per = specs(name, n)
+    mode = 'scalar' if IND[name]['scalar'] else 'bar'
+    mult = 2.0 if IND[name]['mult'] else None
+    def val(i, salt):
+        x = 100.0 + ((i * 2654435761 + salt * 40503) % 100003) / 977.0      # non-dyadic, deterministic
+        return x if mode == 'scalar' else (x, x + 1.37, x - 0.91, x + 0.13, 10.0 + (i % 7) * 1.1)
+    S = [val(i, 1) for i in range(steps)]
+    lines = [native.new_cmd('a', name, per, mult)] + [native.feed_cmd('a', v) for v in S]
+    lines += [native.new_cmd('b', name, per, mult), native.new_cmd('u', name, per, mult)]
+    half = steps // 2
+    for i, v in enumerate(S):
+        lines.append(native.feed_cmd('b', v)); lines.append(native.feed_cmd('u', val(i, 2)))
+        if i == half: lines.append('clone b c')
+        if i > half: lines.append(native.feed_cmd('c', v))
+    rep = native.run_script(lines)
+    outs = {}
+    for l, r in zip(lines, rep):
+        w = l.split()
+        if w[0] in ('next', 'bar'): outs.setdefault(w[1], []).append(r)
+    fam = 'native determinism probe %s%r: %d non-dyadic inputs, two instances / clone / interleaved unrelated instance bit-identical' % (name, tuple(per), steps)
+    for i, (x, y) in enumerate(zip(outs['a'], outs['b'])):
+        if x != y:
+            return fam_result(fam, 'K', 'violation', replay=lines, obligations=1, discharged=0,
+                              detail='%s: two instances with the same parameters and history differ at step %d: %r vs %r (the second was interleaved with an unrelated instance)' % (name, i + 1, x, y))
+    for i, (x, y) in enumerate(zip(outs['c'], outs['b'][half + 1:])):
+        if x != y:
+            return fam_result(fam, 'K', 'violation', replay=lines, obligations=1, discharged=0,
+                              detail='%s: clone and original fed the same continuation differ at step %d: %r vs %r' % (name, i + 1, x, y))
+    return fam_result(fam, 'K', 'ok', obligations=1, discharged=1)
+
+
 def main(chk):
     from vlib import mirsym
     mir = mirsym.dump_mir()
@@ -178,6 +213,7 @@ def main(chk):
         mode = 'scalar' if IND[name]['scalar'] else 'bar'
         hs.append(k_bytes(name, mode, 2 if IND[name]['np'] else 1))
     chk.add(kani.run_family_set('C05', hs, jobs=14, timeout_s=300 if q else 1800))
+    chk.add(run_jobs([(probe_family, (name, 7 if IND[name]['np'] else 1), {}) for name in ALL]))
     chk.assumptions += ['R: outputs of every instance equal a sequential replay of its own inputs for every interleaving position explored; exact reals',
-                        'K: bit-precise; state observed through the derived Serialize impl (token stream)', 'Rust aliasing rules: &mut self cannot alias another instance']
+                        'K: bit-precise; state observed through the derived Serialize impl (token stream)', 'Rust aliasing rules: &mut self cannot alias another instance', 'a native determinism probe (1400 inputs, bit comparison) runs as a sanity pass and as confirmation for unsupported global accesses; it is not a solver verdict']
     chk.notes += ['concurrent use from threads: Kani has no concurrency; it follows from the frame condition only as an argument', 'interleavings longer than n+1 rounds']
